@@ -161,7 +161,6 @@ def m_pin_as_mut(ctx):
     return [(None, v)]
 
 
-@model(r'^Box(?:::<.*>)?::(pin|new)$|^std::boxed::Box(?:::<.*>)?::(pin|new)$')
 def make_box(v):
     """Box value: `in` is the modelled content; field .0.0 is the raw pointer chain (Unique -> NonNull) the MIR uses when it moves out of a box
     (`copy ((b.0: Unique<T>).0: NonNull<T>) as *const T (Transmute)` followed by `*ptr`).  Both views share the same object for non-scalar contents."""
@@ -172,6 +171,7 @@ def make_box(v):
     return o
 
 
+@model(r'^Box(?:::<.*>)?::(pin|new)$|^std::boxed::Box(?:::<.*>)?::(pin|new)$')
 def m_box_new(ctx):
     return [(None, make_box(ctx.args[0]))]
 
@@ -989,10 +989,33 @@ def key_eq(ex, st, a, b):
     return e
 
 
+def lazy_shape(ex, st, o):
+    """give a lazily created container input (never written, never measured) the run's uniform element count; elements are lazily created too"""
+    n = getattr(ex, 'lazy_vec_len', None)
+    if n is None or not isinstance(o, Obj) or o.kind is not None or 'items' in o.attrs or 'symlen' in o.attrs or o.fields or not o.ty:
+        return False
+    ty = o.ty.strip()
+    m = re.match(r'^(?:std::vec::|alloc::vec::)?Vec<(.+)>$', ty)
+    if m and m.group(1).strip() != 'u8':
+        o.kind = 'vec'; o.attrs['items'] = [ex.fresh(st, m.group(1), 'elem') for _ in range(n)]
+        return True
+    m = re.match(r'^(?:std::collections::|indexmap::)?(?:BTreeMap|HashMap|IndexMap)<(.+)>$', ty)
+    if m:
+        parts = split_top(m.group(1))
+        if len(parts) >= 2:
+            o.kind = 'map'; o.attrs['items'] = [(ex.fresh(st, parts[0], 'key'), ex.fresh(st, parts[1], 'val')) for _ in range(n)]
+            if n > 1 and all(z3.is_bv(k) for k, _ in o.attrs['items']):
+                ks = [k for k, _ in o.attrs['items']]
+                st.pc.append(z3.And(*[z3.ULT(a, b) for a, b in zip(ks, ks[1:])]) if 'BTreeMap<' in ty.split('<', 1)[0] + '<' else z3.Distinct(*ks))
+            return True
+    return False
+
+
 def shaped(ex, st, v, what='container'):
     o = ex.deref_val(st, v)
     if isinstance(o, Obj) and o.kind in ('box', 'arc'):
         o = ex.deref_val(st, o.fields[('in', 0)])
+    lazy_shape(ex, st, o)
     if not isinstance(o, Obj) or 'items' not in o.attrs:
         raise MirError(f'{what} without modelled shape: {o!r}')
     return o
@@ -1012,6 +1035,7 @@ def m_vec(ctx):
             return [(None, bytes_obj(bv))]
         return None
     v0 = ex.deref_val(st, ctx.args[0])
+    lazy_shape(ex, st, v0)
     if isinstance(v0, Obj) and 'items' not in v0.attrs and v0.kind is None and op in ('len', 'is_empty'):
         # a container input whose contents are never inspected: only its length is observable -> an arbitrary usize (same for all copies)
         if 'symlen' not in v0.attrs:
@@ -1122,6 +1146,7 @@ def m_into_iter(ctx):
         return [(None, v)]
     if isinstance(v, Obj) and v.kind in ('mapiter', 'range'):
         return [(None, v)]
+    lazy_shape(ex, st, v)
     if isinstance(v, Obj) and 'items' in v.attrs:
         it = Obj('Iter', kind='iter'); it.attrs['src'] = v; it.attrs['pos'] = 0
         it.attrs['mode'] = 'ref' if isinstance(a, Ref) else 'val'
